@@ -9,27 +9,21 @@ import DSModel.Wire.TDigest
 import DSModel.Util
 namespace DS.Wire.TDigest
 
-/-- arithmetic of the value type T on bit patterns -/
+/-- conversions between the value type T (bit patterns) and double -/
 structure TOps where
   tsz : Nat
   wsz : Nat
   toF : Nat → Float
-  sub : Nat → Nat → Nat
-  div : Nat → Nat → Nat
   ofF : Float → Nat
 
 def f64 (b : Nat) : Float := Float.ofBits (UInt64.ofNat b)
 def f32 (b : Nat) : Float32 := Float32.ofBits (UInt32.ofNat b)
 
 def opsD : TOps :=
-  { tsz := 8, wsz := 8, toF := f64,
-    sub := fun a b => (f64 a - f64 b).toBits.toNat, div := fun a b => (f64 a / f64 b).toBits.toNat,
-    ofF := fun x => x.toBits.toNat }
+  { tsz := 8, wsz := 8, toF := f64, ofF := fun x => x.toBits.toNat }
 
 def opsF : TOps :=
-  { tsz := 4, wsz := 4, toF := fun b => (f32 b).toFloat,
-    sub := fun a b => (f32 a - f32 b).toBits.toNat, div := fun a b => (f32 a / f32 b).toBits.toNat,
-    ofF := fun x => x.toFloat32.toBits.toNat }
+  { tsz := 4, wsz := 4, toF := fun b => (f32 b).toFloat, ofF := fun x => x.toFloat32.toBits.toNat }
 
 /-- what the image determines: k, min, max (T bits), centroids (mean T bits, weight), buffered values -/
 structure Api where
